@@ -726,6 +726,22 @@ class CSSCalc(CSSFunction):
         return "<css_parser.css.%s object at 0x%x>" % (
             self.__class__.__name__, id(self))
 
+    def __noratio(self, tokens):
+        """The tokenizer reads ``NUMBER / NUMBER`` before a ``)`` as one RATIO
+        token (for media queries); inside calc() it is a division."""
+        for token in tokens:
+            if token[0] == self._prods.RATIO:
+                for part in re.findall(r'[0-9]+|/|\s+', token[1]):
+                    if part == '/':
+                        type_ = self._prods.CHAR
+                    elif part.strip():
+                        type_ = self._prods.NUMBER
+                    else:
+                        type_ = self._prods.S
+                    yield (type_, part, token[2], token[3])
+            else:
+                yield token
+
     def _setCssText(self, cssText):
         self._checkReadonly()
 
@@ -781,6 +797,10 @@ class CSSCalc(CSSFunction):
                                   ),
                          PreDef.funcEnd(stop=True)
                          )
+
+        if hasattr(cssText, '__next__') or hasattr(cssText, 'next'):
+            # tokens handed over by the enclosing value
+            cssText = self.__noratio(cssText)
 
         # store: name of variable
         ok, seq, store, unused = ProdParser().parse(cssText,
